@@ -8,6 +8,15 @@ From GL Require Export VM.Opcode VM.Proto.
    so 200 is inside what the VM can represent (frame_limit_fits in WfFacts.v). *)
 Definition frame_limit := 200.
 
+(* config.go: FieldsPerFlush, MaxArrayIndex. The raw word after a SETLIST with C = 0 is a block
+   number: OP_SETLIST stores at (block-1)*FieldsPerFlush + i, which must address the array part.
+   (A word that a rewriting pass re-coded as an instruction has opcode bits set, i.e. is >= 2^26,
+   far outside this range.) *)
+Definition fields_per_flush := 50.
+Definition max_array_index := 67108864.
+Definition setlist_block_ok (blk : Z) : bool :=
+  (1 <=? blk) && (blk * fields_per_flush <=? max_array_index).
+
 Definition word (code : list Z) (t : Z) : Z := match zth code t with Some w => w | None => 0 end.
 Definition op_at (code : list Z) (t : Z) : option opcode := op_of_code (opGetOpCode (word code t)).
 
@@ -124,7 +133,7 @@ Definition inst_ok (f : fn) (tags : list Z) (pc w : Z) : bool :=
         head (pc + 2 + opGetArgSbx (word (f_code f) (pc + 1)))
     | OP_SETLIST =>
         reg (A + B) && fall &&
-        (if C =? 0 then tag_is tags (pc + 1) 3 && (1 <=? word (f_code f) (pc + 1)) else true)
+        (if C =? 0 then tag_is tags (pc + 1) 3 && setlist_block_ok (word (f_code f) (pc + 1)) else true)
     | OP_CLOSE | OP_NOP => fall
     | OP_CLOSURE =>
         reg A && (Bx <? len (f_nups f)) && fall && words_ok (capture_ok f tags) pc (Z.to_nat k)
